@@ -324,6 +324,7 @@ def u_iter(ctx, role):
         return iter([("R", first)])
     with Patches() as pt:
         pt.set(PAR, "on_root", lambda *a, **k: role == "root")
+        pt.set(PAR, "on_worker", lambda *a, **k: role != "root")
         pt.set(PAR, "_mpi_root_task", root_task)
         pt.set(PAR, "_mpi_worker_task", lambda func, comm=None: seen.update(worker=(func, comm)))
         ctx.ghost["emit_from_hook"] = lambda it: yielded.extend(list(it))
